@@ -3,6 +3,7 @@ import Hive.Proofs.SyncMutexDag
 import Hive.Proofs.SyncMutexWait
 import Hive.Gen.C17_Skel
 import Hive.Proofs.SyncMutexExec
+import Hive.Proofs.SyncMutexComp7
 /-!
 # C17 — Starving/DAG mutexes: exclusion, no lost wake-up, condition waits
 
@@ -287,6 +288,68 @@ theorem C17_dag_unlock_wrong_mode_old_witness :
       = [.dead] := by
   decide
 
+/-! ## DAGMutex composed of StarvingMutex monitors
+
+`Hive/Model/SyncMutexComp.lean`: the registry mutex `d.Mutex`, the maps `mutexes`/`consumerCounter`, a heap
+of StarvingMutex objects each stepped by the monitor protocol `mxStep` (the very transition function of
+the StarvingMutex theorems above), registration before blocking, `RLock` acquiring its ids in argument
+order, the last consumer detaching the entity's object and unlocking it afterwards.  The theorems below are
+about this composed system directly — no abstract reader/writer lock, and `Stuck` is the real one (a reader
+parked behind a queued writer is not enabled). -/
+
+open Comp in
+/-- Every mutex object of the registry is a StarvingMutex monitor in a state satisfying the monitor
+invariants (`WInv`: Φ_W, Φ_R, condition accounting, counters = holds of the goroutines' views), the consumer
+counter of an entity is the number of goroutines registered for it, and an entity has a mutex iff its counter
+is not zero. -/
+theorem C17_dag_composed_monitors {scripts : List (List Dag.DOp)} (hwb : Dag.WBD scripts) {c : Cfg CSh CTh}
+    (hr : Reach Comp.sys (Comp.initCfg scripts) c) :
+    (∀ o, WInv (c.1.heap o) (c.2.map (proj o))) ∧ (∀ x, c.1.cnt x = Wait.sumL (regc x) c.2) ∧
+      (∀ x, c.1.cnt x = 0 ↔ c.1.ent x = none) := by
+  have h := cinv_reach hwb hr
+  exact ⟨h.obj, h.cnt, h.rw.z⟩
+
+open Comp in
+/-- **DAG exclusion over the composed system**: per entity at most one goroutine holds it for writing, and
+then none for reading (`held` = from the return of `Lock`/`RLock` to the call of `Unlock`/`RUnlock`). -/
+theorem C17_dag_composed_exclusion {scripts : List (List Dag.DOp)} (hwb : Dag.WBD scripts) {c : Cfg CSh CTh}
+    (hr : Reach Comp.sys (Comp.initCfg scripts) c) (x : Nat) :
+    Excl (Wait.sumL (fun t => t.held.count (x, .w)) c.2) (Wait.sumL (fun t => t.held.count (x, .r)) c.2) :=
+  comp_exclusion (cinv_reach hwb hr) x
+
+open Comp in
+/-- **Acquiring along an acyclic order never deadlocks — over the composed system**: no reachable
+configuration is a deadlock (nobody can take a step although somebody has not finished), for any number of
+goroutines whose scripts acquire entities upwards along the order and release what they hold. -/
+theorem C17_dag_composed_deadlock_free {scripts : List (List Dag.DOp)} (hwb : Dag.WBD scripts) {c : Cfg CSh CTh}
+    (hr : Reach Comp.sys (Comp.initCfg scripts) c) : ¬ Deadlock Comp.sys CTh.done c := by
+  rintro ⟨hst, t, ht, hnd⟩
+  exact hnd (comp_stuck_all_done (s := c.1) (ts := c.2) (cinv_reach hwb hr) hst t ht)
+
+open Comp in
+/-- Such goroutines never panic: neither in `unregisterMutex` nor inside a StarvingMutex method. -/
+theorem C17_dag_composed_no_panic {scripts : List (List Dag.DOp)} (hwb : Dag.WBD scripts) {c : Cfg CSh CTh}
+    (hr : Reach Comp.sys (Comp.initCfg scripts) c) : ∀ t ∈ c.2, t.ctl ≠ .dead ∧ t.ipc ≠ .dead := by
+  intro t ht
+  have h := cinv_reach hwb hr
+  constructor
+  · intro hd
+    have := (h.th t ht).si
+    simp [SI, hd] at this
+  · intro hd
+    have := (h.obj t.cur).loc (proj t.cur t) (List.mem_map.mpr ⟨t, ht, rfl⟩)
+    simp [proj, vinv, hd] at this
+
+/-- Non-vacuity: goroutine 0 holds entity 1 for writing and is parked in `RLock` of entity 2, which
+goroutine 1 holds for writing; goroutine 2 is parked in `Lock(1)`. -/
+example :
+    let c := Conc.runSched Comp.sys
+      (Comp.initCfg [[.lock 1, .rlock [2], .runlock [2], .unlock 1], [.lock 2, .unlock 2], [.lock 1, .unlock 1]])
+      ((List.replicate 7 (1, 0)) ++ (List.replicate 12 (0, 0)) ++ (List.replicate 6 (2, 0)))
+    c.2.map (fun t => (t.ctl, t.ipc, t.held)) =
+      [(.inner (.rl []), .rlP, [(1, .w)]), (.idle, .idle, [(2, .w)]), (.inner .done, .lkP, [])] := by
+  decide
+
 /-! ## Counter / Stack waits -/
 
 open Wait in
@@ -411,14 +474,14 @@ theorem C17_skeleton_counter :
   decide
 
 open Hive.Gen.C17Skel in
-/-- `Stack`: same shape; the deferred `Broadcast` of `Pop`/`PopOrWait` is registered first and therefore runs after the deferred unlock; `SignalShutdown` broadcasts without the lock. -/
+/-- `Stack`: same shape; the deferred `Broadcast` of `Pop`/`PopOrWait` is registered first and therefore runs after the deferred unlock; `SignalShutdown` broadcasts while holding the lock (repair a0dbad3 of the PopOrWait gap). -/
 theorem C17_skeleton_stack :
     skel_Stack_Push = ["lock b.mutex", "unlock b.mutex", "call b.elementAdded.Broadcast"] ∧
     skel_Stack_Pop = ["defer func{", "if{", "call b.elementRemoved.Broadcast", "}if", "}func", "lock b.mutex", "defer unlock b.mutex", "if{", "return", "}if", "return"] ∧
     skel_Stack_PopOrWait = ["defer func{", "if{", "call b.elementRemoved.Broadcast", "}if", "}func", "lock b.mutex", "defer unlock b.mutex", "for{", "if{", "return", "}if", "call b.elementAdded.Wait", "}for", "return"] ∧
     skel_Stack_WaitSizeIsBelow = ["lock b.mutex", "defer unlock b.mutex", "for{", "call b.elementRemoved.Wait", "}for"] ∧
     skel_Stack_WaitSizeIsAbove = ["lock b.mutex", "defer unlock b.mutex", "for{", "call b.elementAdded.Wait", "}for"] ∧
-    skel_Stack_SignalShutdown = ["call b.elementAdded.Broadcast"] := by
+    skel_Stack_SignalShutdown = ["lock b.mutex", "defer unlock b.mutex", "call b.elementAdded.Broadcast"] := by
   decide
 
 /-! ## Non-vacuity -/
